@@ -12,6 +12,9 @@ CHECKS = {
  "C12": dict(engine="P", design="5/C12",
    technique="bounded-exhaustive enumeration of (entry point x value x packaging) and (geometric function x lattice input x per-unit rescaling pattern in {1,-1,2.5,-0.3}^units), metamorphic oracle between runs plus closed-form formulas",
    text="Every documented scalar/array entry point is called with every packaging of each table value (Python/NumPy scalars, 0-d arrays, lists, tuples, float32, integer packagings of integral values, Coxeter labels incl. infinite ones) and must give the same floating, usable result as the float64 packaging (and the closed-form value where one exists); README/docstring snippets are executed literally. Every listed geometric function is evaluated on every lattice input under every per-unit rescaling pattern and compared with the unscaled output. Complete over the stated tables; one NumPy version only."),
+ "C20": dict(engine="P", design="5/C20",
+   technique="bounded-exhaustive enumeration of CP^1 point / disk / Moebius-matrix / disk-pair lattices against a set-theoretic Riemann-sphere oracle (closed formulas cross-checked on a 41x41 probe lattice)",
+   text="Every lattice point x input kind x homogeneous multiplier x composite packaging is round-tripped and compared with stereographic projection; every (centre, radius) of the affine and Fubini-Study tables is built and read back (incl. complement twice); all 480 Gaussian-integer matrices with entries in {0,+-1,+-i}, det != 0 are applied to every table disk and compared with the oracle image circle/side; contains/intersects are evaluated on all ordered pairs of a 12-disk general-position family x build routes (bounded, complemented, containing infinity) x elementwise/pairwise and compared with the set predicate."),
 }
 NA = {}
 ALL = ["C%02d" % i for i in range(1, 21)]
